@@ -17,9 +17,10 @@ UNITS = ["src/abg-writer.cc"]
 def run(ctx):
     ctx.clause = ("a hash-style type id is a function of the type's internal pretty representation (plus collision "
                   "probing against a per-writer set): it cannot depend on emission order counters or addresses")
-    ctx.rules = ["R-HASHID", "R-IDUNIQ"]
+    ctx.rules = ["R-HASHID", "R-IDUNIQ", "R-INTERNALFLAG"]
     P = ctx.program(UNITS)
     check_iduniq(ctx, P)
+    check_internalflag(ctx)
     fs = [f for f in P.fn("abigail::xml_writer::write_context::get_id_for_type")
           if "*" in (f.unit.type(f.params()[0]["t"]) or {}).get("s", "")]
     if len(fs) != 1:
@@ -236,3 +237,63 @@ def check_iduniq(ctx, P, rule="R-IDUNIQ"):
                "a path reaches the formatting of `hash` without a successful insert of that value into the set of used "
                "hashes (the probe picks a free value but never registers it): the next colliding type is given the "
                "same id")
+
+
+
+def check_internalflag(ctx):
+    """R-INTERNALFLAG: the hash id is the hash of the *internal* pretty representation, which is document independent
+    only because every nested name is itself computed in internal mode (anonymous types then share one generic name
+    instead of a per-scope number).  In every function of src/abg-ir.cc that takes a `bool internal` parameter, each
+    call - reachable in the world where `internal` is true - of a function that has an `internal` parameter of its own
+    passes a value that is true in that world.  A literal `false` (or an omitted argument defaulting to false) there
+    splices an external, numbered name into an internal one: the id of the enclosing type then depends on how many
+    anonymous types precede it in the binary."""
+    from rules.world import World
+    P = ctx.program(["src/abg-ir.cc"])
+
+    def internal_param(g):
+        for i, p in enumerate(g.r["params"]):
+            if (g.unit.decl(p) or {}).get("n") == "internal":
+                return i, p
+        return None
+    n = 0
+    for f in sorted(P.all_funcs(), key=lambda x: (x.file, x.l0)):
+        if f.dep or f.cfg() is None or not f.q.startswith("abigail::"):
+            continue
+        ip = internal_param(f)
+        if ip is None:
+            continue
+        pd = ip[1]
+
+        def atom(e, pd=pd):
+            if e["k"] == "DeclRefExpr" and e.get("d") == pd:
+                return [True]
+            return None
+        W = World(f, atom)
+        seen, _ = W.blocks()
+        cfg = f.cfg()
+        reached = {e["i"] for b in seen for e in cfg.blocks[b].elems}
+        k = {}
+        for x in f.nodes():
+            if x["k"] not in ("CallExpr", "CXXMemberCallExpr") or x["i"] not in reached:
+                continue
+            g = P.funcs.get((f.decl(x) or {}).get("u"))
+            gi = internal_param(g) if g is not None else None
+            if gi is None:
+                continue
+            args = call_args(x)
+            if gi[0] >= len(args):
+                continue
+            ctx.analysed(f)
+            n += 1
+            v = W.ev(args[gi[0]])
+            ok = v == frozenset([True])
+            k[g.n] = k.get(g.n, 0) + 1
+            from rules.null_rules import short
+            ctx.ob("R-INTERNALFLAG", "%s: %s() is asked for the internal name when the internal name is being built%s" % (
+                short(f), g.n, "" if k[g.n] == 1 else " #%d" % k[g.n]), ok, f.loc(x),
+                "`%s`" % expr_str(f, args[gi[0]])[:40] if ok else
+                "`%s` passes `%s` for `internal` on a path where this function computes an internal name: an external "
+                "(numbered) anonymous name ends up inside an internal name, and the hash id of the type changes from one "
+                "binary to the next" % (expr_str(f, x)[:80], expr_str(f, args[gi[0]])[:30]))
+    ctx.floor("R-INTERNALFLAG", "nested name computations under internal=true", n, 50)
